@@ -48,13 +48,13 @@ def overlay_of(patch_path, repo=None):
             os.makedirs(os.path.dirname(dst), exist_ok=True)
             if os.path.exists(src):
                 shutil.copyfile(src, dst)
-        r = subprocess.run(
-            ["git", "apply", "--unsafe-paths", os.path.abspath(patch_path)],
-            cwd=tmp,
-            capture_output=True,
-            text=True,
-            env={**os.environ, "GIT_DIR": os.path.join(tmp, ".nogit"), "GIT_CEILING_DIRECTORIES": tmp},
-        )
+        env = {**os.environ, "GIT_DIR": os.path.join(tmp, ".nogit"), "GIT_CEILING_DIRECTORIES": tmp}
+        r = None
+        # exact context first; then with less context (the surrounding lines may have changed since the patch was made)
+        for extra in ([], ["-C1"], ["-C0", "--unidiff-zero"]):
+            r = subprocess.run(["git", "apply", "--unsafe-paths", *extra, os.path.abspath(patch_path)], cwd=tmp, capture_output=True, text=True, env=env)
+            if r.returncode == 0:
+                break
         if r.returncode != 0:
             return None, "patch does not apply: " + (r.stderr.strip().splitlines() or ["?"])[-1][:160]
         out = {}
